@@ -13,7 +13,9 @@
       two-asset stableswap pair alike: the ledger code in `commands.rs` is shared by both.
     * the fee collector's `CollectFees` — the message that TRIGGERS the collections of pairs and vaults —
       model WW/Model/{Collector,Feeflow}.lean (engine `feeflow`, also with coins attached to the message):
-      last section of this file; the theorems are those of WW/Props/C10.lean.
+      last section of this file; the theorems are those of WW/Props/C10.lean.  A collection can reach a vault while
+      one of its flash loans is in flight (the borrower sends `NewEpoch` / `CollectFees` from its callback:
+      `Feeflow.Op.inloan`): `vault_ledger_across_inloan`.
 -/
 import WW.Proofs.Trio
 import WW.Proofs.VaultLedger
@@ -302,5 +304,36 @@ theorem collector_collect_ignores_attached_coins (cfg : Feeflow.Cfg) (s s' : Fee
   obtain ⟨c0, h0, hp, hv, _, hb, _, hd, hdao, _, hxb, _⟩ :=
     WW.C10.stray_coins_stay_on_collector cfg s s' payer a x sender f h
   exact ⟨c0, h0, hp, hv, hb, hd, hdao, hxb⟩
+
+/-! ## a collection that reaches a vault WHILE ONE OF ITS FLASH LOANS IS IN FLIGHT (engine `feeflow`, `Op.inloan`) -/
+
+/-- **vault_ledger_across_inloan** — the lending vault's ledgers across a completed transaction `FlashLoan` → the
+    borrower's callback runs ANY operation `inner` (a `NewEpoch`, a direct `CollectFees`, …) → repayment, for all amounts,
+    balances and fee shares: (ledger) what is pending afterwards = pending before + the protocol fee charged for this loan
+    − what was paid out to the collector in mid-loan, i.e. the ledger is lowered by exactly what was transferred, also
+    with the loan counter at 1; (bank) the vault's balance moved by nothing but the loan, that transfer, the repayment
+    and the burn: balance after + paid out + burn fee + loan = balance before + repayment -/
+theorem vault_ledger_across_inloan (s : Feeflow.St) (k amount vbal : Nat) (mode : Feeflow.Repay)
+    (fees : Feeflow.LoanFees) (inner : Feeflow.St → Res Feeflow.St) (o : Feeflow.LoanOut)
+    (h : Feeflow.inloanRun s k amount mode vbal fees inner = .ok o) :
+    ∃ s1, inner s = .ok s1 ∧
+      (Feeflow.pendOf s1 k ≤ Feeflow.pendOf s k → (s1.c.vaults[k]?).isSome = true →
+        Feeflow.pendOf o.st k + o.paidOut = Feeflow.pendOf s k + Feeflow.loanFee fees.prot amount) ∧
+      o.paidOut = Feeflow.pendOf s k - Feeflow.pendOf s1 k ∧
+      o.endBal + o.paidOut + Feeflow.loanFee fees.burn amount + amount = vbal + o.repaid := by
+  obtain ⟨_, hcov, hle, extra, _, _, hend, hrep⟩ := WW.C10.inloan_vault_ends_with_fees s k amount vbal mode fees inner o h
+  obtain ⟨s1, hi, hc, _, _, _⟩ := Feeflow.inloanRun_ok h
+  obtain ⟨_, _, _, hst, _, _, hp⟩ := Feeflow.loanClose_ok hc
+  refine ⟨s1, hi, fun hmono hsome => ?_, hp, ?_⟩
+  · rw [hst, Feeflow.pendOf_accrueLoan, if_pos ⟨rfl, hsome⟩, hp]
+    unfold Feeflow.loanPaidOut
+    omega
+  · rw [hend, hrep]; omega
+
+/-- on numbers: the uusdc vault of `WW.C10.jst` (2500 pending, balance 1 000 000, 1 % / 0.1 % fees) lends 400 000 and is
+    collected from in mid-loan: 4000 + 2500 paid out = 2500 + 4000 charged; 1 004 400 + 2500 + 0 + 400 000 = 1 000 000 + 406 900 -/
+example : ((Feeflow.inloanRun WW.C10.jst 1 400000 .exact 1000000 WW.C10.f1
+      (fun s0 => Feeflow.step WW.C10.jcfg s0 (.collect 1003 (.oneVault 1)))).toOption.map
+    fun o => (Feeflow.pendOf o.st 1, o.paidOut, o.endBal, o.repaid)) = some (4000, 2500, 1004400, 406900) := by decide
 
 end WW.C07
